@@ -16,11 +16,12 @@ from .interp_api import PathEnd, Unmodelled, wrap
 
 
 class Frame:
-    __slots__ = ('body', 'locals', 'name')
+    __slots__ = ('body', 'locals', 'name', 'gen')
 
-    def __init__(self, body, name):
+    def __init__(self, body, name, gen=None):
         self.body = body
         self.name = name
+        self.gen = gen
         n = max(body.local_types) + 1 if body.local_types else 1
         self.locals = [UNINIT] * n
 
@@ -166,6 +167,34 @@ class Interp:
         r = self.solver.check(extra) if extra is not None else self.solver.check()
         self.solver_s += time.time() - t0
         if r == z3.unknown:
+            dd = os.environ.get('MIRSYM_DUMP_UNKNOWN')
+            if dd:
+                try:
+                    os.makedirs(dd, exist_ok=True)
+                    with open(os.path.join(dd, 'q%d_%d.smt2' % (os.getpid(), self.queries)), 'w') as f:
+                        f.write('(set-logic ALL)\n' + self.solver.sexpr())
+                        if extra is not None:
+                            f.write('\n(assert ' + extra.sexpr() + ')')
+                        f.write('\n(check-sat)\n')
+                except Exception:
+                    pass
+            # the incremental solver uses z3's general SMT core; retry once from scratch (tactic-based, like the CLI)
+            if not soft or self.cfg.get('fresh_on_soft', False):
+                t1 = time.time()
+                s2 = z3.Solver()
+                s2.set('timeout', int(self.cfg.get('fresh_timeout_ms', 40000)))
+                for c in self.pc:
+                    s2.add(c)
+                if extra is not None:
+                    s2.add(extra)
+                r2 = s2.check()
+                self.solver_s += time.time() - t1
+                self.queries += 1
+                if r2 == z3.sat:
+                    self.cand_model = s2.model()
+                    return True
+                if r2 == z3.unsat:
+                    return False
             m = self.try_candidates(extra)
             if m is not None:
                 self.cand_model = m
@@ -486,6 +515,12 @@ class Interp:
             if not self.check(extra_cond):
                 return False
             model = self.last_model()
+        elif self.concrete_inputs is None and self.inputs and self.model is None:
+            # a violation on a path whose feasibility was never proven: prove it now or drop the path
+            r = self.check()
+            if not r:
+                raise PathEnd('infeasible', 'path condition unsatisfiable')
+            self.model = self.last_model()
         where = ' <- '.join(reversed(self.callstack[-6:]))
         v = {'kind': kind, 'msg': msg[:300], 'where': where}
         try:
@@ -725,6 +760,8 @@ class Interp:
         raise Unmodelled('const ' + str(c))
 
     def eval_named_const(self, fr, s):
+        if fr is not None and fr.gen:
+            s = self.subst_generics(s, fr.gen)
         if s.startswith('ZeroSized: '):
             s = s[11:].strip()
             if s.startswith('{closure@'):
@@ -881,15 +918,8 @@ class Interp:
                 return Sym((x > y) if signed else z3.UGT(x, y))
             if op == 'Ge':
                 return Sym((x >= y) if signed else z3.UGE(x, y))
-            if op == 'AddWithOverflow':
-                ok = z3.And(z3.BVAddNoOverflow(x, y, signed), z3.BVAddNoUnderflow(x, y)) if signed else z3.BVAddNoOverflow(x, y, False)
-                return Tup([Sym(x + y), Sym(z3.Not(ok))])
-            if op == 'SubWithOverflow':
-                ok = z3.And(z3.BVSubNoOverflow(x, y), z3.BVSubNoUnderflow(x, y, True)) if signed else z3.BVSubNoUnderflow(x, y, False)
-                return Tup([Sym(x - y), Sym(z3.Not(ok))])
-            if op == 'MulWithOverflow':
-                ok = z3.And(z3.BVMulNoOverflow(x, y, signed), z3.BVMulNoUnderflow(x, y)) if signed else z3.BVMulNoOverflow(x, y, False)
-                return Tup([Sym(x * y), Sym(z3.Not(ok))])
+            if op in ('AddWithOverflow', 'SubWithOverflow', 'MulWithOverflow'):
+                return self.overflow_op(op, a, b, x, y, bits, signed)
             if op == 'Cmp':
                 lt = Sym((x < y) if signed else z3.ULT(x, y))
                 if self.decide(lt):
@@ -946,6 +976,58 @@ class Interp:
                 (type(a) is SliceRef and a.arr is b.arr and a.start == b.start and a.length == b.length))
             return same if op == 'Eq' else not same
         raise Unmodelled('binop %s on type %s (%r, %r)' % (op, ty, a, b))
+
+    def overflow_op(self, op, a, b, x, y, bits, signed):
+        """(result, overflowed) with cheap range predicates when one operand is a constant"""
+        lo = -(1 << (bits - 1)) if signed else 0
+        hi = (1 << (bits - 1)) - 1 if signed else (1 << bits) - 1
+
+        def bv(v):
+            return z3.BitVecVal(v & ((1 << bits) - 1), bits)
+
+        def within(e, l, h):
+            # l <= e <= h in the type's order (l, h python ints inside the type's range)
+            if l > h:
+                return z3.BoolVal(False)
+            if signed:
+                return z3.And(e >= bv(l), e <= bv(h))
+            return z3.And(z3.UGE(e, bv(l)), z3.ULE(e, bv(h)))
+        ca = a if type(a) is not Sym else None
+        cb = b if type(b) is not Sym else None
+        if op == 'AddWithOverflow':
+            res = x + y
+            if cb is not None or ca is not None:
+                c, e = (cb, x) if cb is not None else (ca, y)
+                ok = within(e, max(lo, lo - c), min(hi, hi - c))
+            else:
+                ok = z3.And(z3.BVAddNoOverflow(x, y, signed), z3.BVAddNoUnderflow(x, y)) if signed else z3.BVAddNoOverflow(x, y, False)
+        elif op == 'SubWithOverflow':
+            res = x - y
+            if cb is not None:
+                ok = within(x, max(lo, lo + cb), min(hi, hi + cb))
+            elif ca is not None:
+                # ca - y in [lo,hi]  <=>  ca-hi <= y <= ca-lo
+                ok = within(y, max(lo, ca - hi), min(hi, ca - lo))
+            else:
+                ok = z3.And(z3.BVSubNoOverflow(x, y), z3.BVSubNoUnderflow(x, y, True)) if signed else z3.BVSubNoUnderflow(x, y, False)
+        else:
+            res = x * y
+            if cb is not None or ca is not None:
+                c, e = (cb, x) if cb is not None else (ca, y)
+                if c == 0:
+                    ok = z3.BoolVal(True)
+                elif c > 0:
+                    l = -((-lo) // c) if lo < 0 else 0
+                    ok = within(e, l, hi // c)
+                else:
+                    # negative constant (signed only): e*c in [lo,hi] <=> ceil(hi/c) <= e <= floor(lo/c)
+                    import math as _m
+                    l = max(lo, -(hi // (-c)))
+                    h = min(hi, (-lo) // (-c))
+                    ok = within(e, l, h)
+            else:
+                ok = z3.And(z3.BVMulNoOverflow(x, y, signed), z3.BVMulNoUnderflow(x, y)) if signed else z3.BVMulNoOverflow(x, y, False)
+        return Tup([Sym(res), Sym(z3.Not(ok))])
 
     def binop_int_concrete(self, op, a, b, bits, signed):
         if a is True or a is False:
@@ -1268,8 +1350,8 @@ class Interp:
 
     # ------------------------------------------------------------------ execution
 
-    def exec_body(self, body, name, args):
-        fr = Frame(body, name)
+    def exec_body(self, body, name, args, gen=None):
+        fr = Frame(body, name, gen)
         for i, a in enumerate(args):
             fr.locals[i + 1] = a
         self.callstack.append(name)
@@ -1388,13 +1470,57 @@ class Interp:
 
     # ------------------------------------------------------------------ calls
 
+    def subst_generics(self, text, gen):
+        for k, v in gen.items():
+            text = re.sub(r'(?<![\w:])' + re.escape(k) + r'(?![\w])', v, text)
+        return text
+
+    def callee_generics(self, callee, target):
+        """explicit trailing ::<...> arguments of the call -> {param: type} for the MIR function `target`"""
+        c = callee.rstrip()
+        if not c.endswith('>'):
+            return None
+        # find the '::<' that opens the final generic list
+        depth = 0
+        i = len(c) - 1
+        while i >= 0:
+            ch = c[i]
+            if ch == '>' and c[i - 1] not in '-=':
+                depth += 1
+            elif ch == '<':
+                depth -= 1
+                if depth == 0:
+                    break
+            i -= 1
+        if i < 2 or c[i - 2:i] != '::':
+            return None
+        args = [a for a in split_top(c[i + 1:-1]) if not a.startswith("'")]
+        if not args:
+            return None
+        last = target.split('::')[-1]
+        if last.startswith('{'):
+            return None
+        hint = None
+        m = re.search(r'<impl at ([^:>]*):', target)
+        if m:
+            hint = m.group(1)
+        params = self.src.fn_generics(last, hint)
+        if not params or len(params) < len(args):
+            return None
+        return {p: a for p, a in zip(params, args) if a != '_' and not re.match(r'^[A-Z]\w?$', a)}
+
     def do_call(self, fr, st, args):
         callee = st.b
-        if st.cache is None:
-            st.cache = self.resolve_callee(callee, fr)
-        kind, target = st.cache
+        if fr.gen:
+            callee = self.subst_generics(callee, fr.gen)
+            kind, target = self.resolve_callee(callee, fr)
+        else:
+            if st.cache is None:
+                st.cache = self.resolve_callee(callee, fr)
+            kind, target = st.cache
         if kind == 'mir':
-            return self.exec_body(self.prog.get(target), target, args)
+            gen = self.callee_generics(callee, target) if callee.endswith('>') else None
+            return self.exec_body(self.prog.get(target), target, args, gen)
         if kind == 'model':
             self.callstack.append('std:' + target.__name__)
             r = target(self, args, callee)
@@ -1416,7 +1542,8 @@ class Interp:
         if type(f) is FnRef:
             kind, target = self.resolve_callee(f.path, None)
             if kind == 'mir':
-                return self.exec_body(self.prog.get(target), target, args)
+                gen = self.callee_generics(f.path, target) if f.path.endswith('>') else None
+                return self.exec_body(self.prog.get(target), target, args, gen)
             if kind == 'model':
                 return target(self, args, f.path)
             if kind == 'dyn':
